@@ -12,7 +12,7 @@ import math
 import numpy as np
 import jax
 
-from sim import world, progs, ref, gfi, otree
+from sim import world, progs, ref, gfi, otree, bare
 from sim.gfi import V
 from sim.scripted import run_scripted
 from genjax import pjax as gpjax
@@ -22,6 +22,9 @@ DISCRETE = ["flip", "bernoulli", "categorical"]
 
 
 def gen_case(rng, tier):
+    if rng.random() < 0.12:
+        # a bare Distribution / Vmap-of-Distribution used directly through the GFI (sim/bare.py)
+        return bare.gen_case(rng, tier, "generate")
     tree = rng.random() < 0.25
     if tree:
         c = gfi.gen_model_case(rng, tier, depth=rng.choice([0, 1, 1]), dists=DISCRETE, max_blocks=2)
@@ -60,6 +63,8 @@ def constraint_map(model, h, paths, rseed):
 
 
 def run_case(case):
+    if "bare" in case:
+        return bare.run_case(case)
     model, h = case["model"], case["h"]
     gf = progs.build(model)
     viol = []
@@ -201,6 +206,9 @@ def run_tree(gf, model, h, x, cons, cp, max_leaves=2048):
 
 
 def shrink(case):
+    if "bare" in case:
+        yield from bare.shrink(case)
+        return
     ops = case["ops"]
     for i in range(len(ops)):
         if len(ops) > 1:
